@@ -289,5 +289,16 @@ def main(argv=None):
     return EXIT_OK
 
 
+def _main_with_scratch():
+    # per-run scratch directory (fresh-interpreter reference cache of C06 etc.), removed when the run ends
+    import shutil, tempfile
+    d = tempfile.mkdtemp(prefix='vp_scratch_')
+    os.environ['VP_SCRATCH'] = d
+    try:
+        return main()
+    finally:
+        shutil.rmtree(d, ignore_errors=True)
+
+
 if __name__ == '__main__':
-    sys.exit(main())
+    sys.exit(_main_with_scratch())
